@@ -222,3 +222,30 @@ def all_cases(t, limit=5):
         asg = dict(zip(conds, bits))
         out.append((asg, resolve_deep(t, asg)))
     return out
+
+
+def apply_fn(ev, f, args):
+    """Value of applying a function-valued term to argument terms: a local closure, functools.partial(...) of either, or a module-level
+    repo function (evaluated from its own definition).  None if the term is not one of these."""
+    if not isinstance(f, tuple) or not f:
+        return None
+    if f[0] == "closure":
+        return ev.apply_closure(f, tuple(args), ())
+    if f[0] == "partial":
+        inner = apply_fn(ev, f[1], tuple(f[2]) + tuple(args)) if not f[3] else None
+        if inner is not None:
+            return inner
+        try:
+            return ev.call_term(f[1], tuple(f[2]) + tuple(args), tuple(f[3]), None, None)
+        except Exception:
+            return None
+    if f[0] == "name" and f[1].startswith("genjax."):
+        look = ev.p.lookup(f[1])
+        if look is None or look[0] != "func":
+            return None
+        try:
+            return ev.eval_funcnode(look[1], look[2], f[1], args=tuple(args), kwargs=()).ret
+        except Exception:
+            return None
+    return None
+
